@@ -60,7 +60,32 @@ func c13Pool() []c13jm {
 		c13Obj(c13jm{"a": c13Int("default", 1)}, "required", []any{"a"}),
 		c13Obj(c13jm{"a": c13Int("nullable", true), "z": c13Str("default", "w")}),
 		c13Obj(c13jm{"n": c13Arr(c13Obj(c13jm{"k": c13Str(), "m": c13Int("default", 9)}))}),
+		// structured defaults: the injected object/array is itself visited and receives nested defaults
+		c13Obj(c13jm{"n": c13Obj(c13jm{"a": c13Int("default", 1), "b": c13Str()}, "default", c13jm{})}),
+		c13Obj(c13jm{"n": c13Obj(c13jm{"a": c13Int("default", 1)}, "default", c13jm{"a": 5}), "z": c13Int()}),
+		c13Obj(c13jm{"n": c13jm{"type": "array", "items": c13Obj(c13jm{"m": c13Int("default", 9)}), "default": []any{c13jm{}}}}),
 	}
+}
+
+func c13HasComb(s any) bool {
+	switch x := s.(type) {
+	case map[string]any:
+		for k, v := range x {
+			if k == "anyOf" || k == "oneOf" || k == "allOf" {
+				return true
+			}
+			if c13HasComb(v) {
+				return true
+			}
+		}
+	case []any:
+		for _, v := range x {
+			if c13HasComb(v) {
+				return true
+			}
+		}
+	}
+	return false
 }
 
 var c13ObjBodies = []any{
@@ -85,8 +110,31 @@ func c13BodyCase(schema any, body any, skip, multi, ro bool) hx.Case {
 		"bodySpec": c13jm{"present": true, "required": false, "schema": schema}, "params": []any{}, "store": []any{}}
 }
 
-func genC13(ctx *hx.Ctx, emit func(hx.Case)) {
+func genC13(ctx *hx.Ctx, emit0 func(hx.Case)) {
 	thorough := ctx.Thorough()
+	// cross-cutting features, applied to the cases of EVERY block in turn: a Content-Type header with parameters
+	// (same media type), and the security requirements declared at document level instead of operation level
+	cnt := 0
+	emit := func(c hx.Case) {
+		cnt++
+		if ct, _ := c["ctype"].(string); ct == "application/json" {
+			switch {
+			case cnt%3 == 0:
+				c["ctype"] = "application/json; charset=utf-8"
+			case cnt%7 == 0:
+				c["ctype"] = "application/json;charset=UTF-8"
+			}
+		}
+		if sec, ok := c["sec"].(c13jm); ok && sec["reqs"] != nil && cnt%2 == 0 {
+			ns := c13jm{}
+			for k, v := range sec {
+				ns[k] = v
+			}
+			ns["docLevel"] = true
+			c["sec"] = ns
+		}
+		emit0(c)
+	}
 	n := 0
 	thin := func(k int) bool { // quick tier keeps every k-th case of a big block
 		n++
@@ -246,6 +294,105 @@ func genC13(ctx *hx.Ctx, emit func(hx.Case)) {
 		emit(c13BodyCase(c13jm{"anyOf": []any{pool[0], c13Int("nullable", true)}}, t, false, false, false))
 	}
 
+	// ---- block D: Content-Type header × declared media types × body (composition-free schemas: see Assumptions)
+	sB := c13Obj(c13jm{"a": c13Str(), "e": c13Int("default", 3)})
+	headers := []string{"application/json", "application/json; charset=utf-8", "application/json;charset=utf-8", "application/json ; charset=utf-8",
+		"APPLICATION/JSON", "application/problem+json", "application/problem+json; charset=utf-8", "application/hal+json", "application/vnd.api+json",
+		"text/plain", "application/xml", "", "application", "application/json-patch+json"}
+	contents := [][]any{
+		{c13jm{"key": "application/json", "schema": s0}},
+		{c13jm{"key": "application/json; charset=utf-8", "schema": sB}, c13jm{"key": "application/json", "schema": s0}},
+		{c13jm{"key": "application/*", "schema": s0}},
+		{c13jm{"key": "*/*", "schema": s0}},
+		{c13jm{"key": "application/problem+json", "schema": sB}, c13jm{"key": "application/json", "schema": s0}},
+		{c13jm{"key": "application/json", "schema": s0}, c13jm{"key": "application/*", "schema": sB}, c13jm{"key": "*/*", "schema": c13Str()}},
+		{},
+		{c13jm{"key": "application/json", "schema": nil}},
+		{c13jm{"key": "text/plain", "schema": c13Str()}, c13jm{"key": "application/hal+json", "schema": sB}},
+	}
+	for _, h := range headers {
+		for _, content := range contents {
+			for _, body := range []any{`{}`, `{"a":"x"}`, `{"a":"x","d":1,"e":2}`, `not json`, ` {"a" : "x"} `} {
+				for o := 0; o < 3; o++ {
+					opts := c13Opts(o == 1, o == 2)
+					emit0(hx.Case{"opts": opts, "sec": c13NoSec, "stream": c13jm{"getBody": []string{"ok", "nil", "fails"}[o], "cl": "len"}, "body": body, "ctype": h,
+						"bodySpec": c13jm{"present": true, "required": true, "content": content}, "params": []any{}, "store": []any{}})
+				}
+			}
+		}
+	}
+
+	// ---- block E: path-item parameters, overrides by the operation, excluded query parameters
+	for _, loc := range []string{"query", "header", "cookie"} {
+		other := map[string]string{"query": "header", "header": "cookie", "cookie": "query"}[loc]
+		for _, pd := range []any{nil, 1} {
+			overrides := [][]any{
+				{},
+				{c13jm{"name": "Xq", "in": loc, "ty": "integer", "dflt": nil, "required": false, "allowEmpty": false, "explode": nil}},
+				{c13jm{"name": "Xq", "in": loc, "ty": "integer", "dflt": 2, "required": false, "allowEmpty": false, "explode": nil}},
+				{c13jm{"name": "Xq", "in": other, "ty": "integer", "dflt": 2, "required": false, "allowEmpty": false, "explode": nil}},
+				{c13jm{"name": "Xq", "in": loc, "ty": "string", "dflt": "dd", "required": false, "allowEmpty": false, "explode": nil}},
+				{c13jm{"name": "Xq2", "in": loc, "ty": "integer", "dflt": 2, "required": false, "allowEmpty": false, "explode": nil}},
+			}
+			for _, ov := range overrides {
+				for fl := 0; fl < 16; fl++ {
+					pp := []any{
+						c13jm{"name": "Xq", "in": loc, "ty": "integer", "dflt": pd, "required": false, "allowEmpty": false, "explode": nil},
+						c13jm{"name": "X-Q", "in": "header", "ty": "integer", "dflt": 3, "required": false, "allowEmpty": false, "explode": nil},
+					}
+					store := []any{}
+					if fl&1 != 0 {
+						store = append(store, c13jm{"in": loc, "name": "Xq", "raw": []any{c13Lit(5)}})
+					}
+					o := c13Opts(fl&2 != 0, fl&8 != 0)
+					o["excludeQuery"] = fl&4 != 0
+					emit(hx.Case{"opts": o, "sec": c13NoSec, "stream": c13StreamOK, "body": nil, "ctype": "",
+						"bodySpec": c13NoBodySpec, "pathParams": pp, "params": ov, "store": store, "reuseInput": fl == 8})
+				}
+			}
+		}
+	}
+
+	// ---- block F: the parameter schema carries its type (and a default) inside allOf
+	for _, loc := range []string{"query", "header", "cookie"} {
+		for _, ty := range []string{"integer", "string", "boolean", "array:integer"} {
+			for _, pair := range [][2]any{{nil, typedD[ty]}, {valid[ty], typedD[ty]}, {typedD[ty], nil}, {nil, nil}} {
+				for fl := 0; fl < 4; fl++ {
+					p := c13jm{"name": names[loc], "in": loc, "ty": ty, "dflt": pair[0], "allOfDflt": pair[1], "viaAllOf": true,
+						"required": false, "allowEmpty": false, "explode": map[string]any{"cookie": false}[loc]}
+					if ty == "array:integer" && pair[0] != nil && pair[1] != nil {
+						p["dflt"] = []any{8}
+					}
+					store := []any{}
+					if fl&1 != 0 {
+						store = append(store, c13jm{"in": loc, "name": names[loc], "raw": []any{c13Lit(valid[ty])}})
+					}
+					emit(hx.Case{"opts": c13Opts(fl&2 != 0, false), "sec": c13NoSec, "stream": c13StreamOK, "body": nil, "ctype": "",
+						"bodySpec": c13NoBodySpec, "params": []any{p}, "store": store})
+				}
+			}
+		}
+	}
+
+	// ---- block G: parameters described by `content: application/json` (scalar schemas)
+	for _, loc := range []string{"query", "header", "cookie"} {
+		for _, ty := range []string{"integer", "string", "boolean"} {
+			for _, d := range []any{nil, typedD[ty]} {
+				for _, raw := range [][]any{nil, {c13Lit(valid[ty])}, {c13Lit("zz")}, {c13Lit(7)}} {
+					for fl := 0; fl < 4; fl++ {
+						p := c13jm{"name": names[loc], "in": loc, "ty": ty, "dflt": d, "required": fl&1 != 0, "allowEmpty": false, "explode": nil, "content": true}
+						store := []any{}
+						if raw != nil {
+							store = append(store, c13jm{"in": loc, "name": names[loc], "raw": raw})
+						}
+						emit(hx.Case{"opts": c13Opts(fl&2 != 0, false), "sec": c13NoSec, "stream": c13StreamOK, "body": nil, "ctype": "",
+							"bodySpec": c13NoBodySpec, "params": []any{p}, "store": store})
+					}
+				}
+			}
+		}
+	}
+
 	// ---- seeded random stream
 	r := ctx.Rng
 	count := 6000
@@ -298,7 +445,13 @@ func genC13(ctx *hx.Ctx, emit func(hx.Case)) {
 				if r.Chance(65) {
 					props[key] = randLeaf()
 				} else {
-					props[key] = randSchema(depth - 1)
+					sub := randSchema(depth - 1)
+					if sub["type"] == "object" && r.Chance(25) {
+						sub["default"] = c13jm{}
+					} else if sub["type"] == "array" && r.Chance(25) {
+						sub["default"] = []any{}
+					}
+					props[key] = sub
 				}
 			}
 			s := c13Obj(props)
@@ -389,18 +542,10 @@ func genC13(ctx *hx.Ctx, emit func(hx.Case)) {
 		if r.Chance(4) {
 			body = hx.Pick(r, []any{nil, "", `{"a":`, `{} {}`})
 		}
-		params, store := []any{}, []any{}
+		params, pathParams, store := []any{}, []any{}, []any{}
 		used := map[string]bool{}
-		for j, k := 0, r.Intn(4); j < k; j++ {
-			loc := hx.Pick(r, locs)
-			name := names[loc]
-			if r.Bool() {
-				name += "2"
-			}
-			if used[loc+name] {
-				continue
-			}
-			used[loc+name] = true
+		stored := map[string]bool{}
+		mkParam := func(loc, name string) c13jm {
 			ty := hx.Pick(r, ptys)
 			var d any
 			if r.Chance(65) {
@@ -424,8 +569,22 @@ func genC13(ctx *hx.Ctx, emit func(hx.Case)) {
 			if r.Chance(50) {
 				ex = r.Bool()
 			}
-			params = append(params, c13jm{"name": name, "in": loc, "ty": ty, "dflt": d, "required": r.Chance(15), "allowEmpty": r.Chance(10), "explode": ex})
-			if r.Chance(45) {
+			pm := c13jm{"name": name, "in": loc, "ty": ty, "dflt": d, "required": r.Chance(15), "allowEmpty": r.Chance(10), "explode": ex}
+			if (ty == "integer" || ty == "string" || ty == "boolean") && r.Chance(8) {
+				pm["content"] = true
+				pm["explode"] = nil
+			} else if ty != "untyped" && r.Chance(15) {
+				pm["viaAllOf"] = true
+				if r.Chance(60) {
+					if len(ty) > 6 && ty[:6] == "array:" {
+						pm["allOfDflt"] = []any{randScalarOf(ty[6:])}
+					} else {
+						pm["allOfDflt"] = randScalarOf(ty)
+					}
+				}
+			}
+			if !stored[loc+name] && r.Chance(45) {
+				stored[loc+name] = true
 				var raw []any
 				base := ty
 				if len(ty) > 6 && ty[:6] == "array:" {
@@ -448,6 +607,36 @@ func genC13(ctx *hx.Ctx, emit func(hx.Case)) {
 				}
 				store = append(store, c13jm{"in": loc, "name": name, "raw": raw})
 			}
+			return pm
+		}
+		for j, k := 0, r.Intn(4); j < k; j++ {
+			loc := hx.Pick(r, locs)
+			name := names[loc]
+			if r.Bool() {
+				name += "2"
+			}
+			if used[loc+name] {
+				continue
+			}
+			used[loc+name] = true
+			params = append(params, mkParam(loc, name))
+		}
+		// path-item parameters: some redeclared by the operation (overridden), some on their own
+		usedP := map[string]bool{}
+		for j, k := 0, r.Intn(3); j < k && r.Chance(60); j++ {
+			loc := hx.Pick(r, locs)
+			name := names[loc]
+			switch r.Intn(3) {
+			case 0:
+				name += "2"
+			case 1:
+				name += "3"
+			}
+			if usedP[loc+name] {
+				continue
+			}
+			usedP[loc+name] = true
+			pathParams = append(pathParams, mkParam(loc, name))
 		}
 		var reqs any
 		if r.Chance(40) {
@@ -457,16 +646,33 @@ func genC13(ctx *hx.Ctx, emit func(hx.Case)) {
 		o := c13Opts(r.Chance(25), r.Chance(30))
 		o["roDisabled"] = r.Chance(15)
 		o["excludeBody"] = r.Chance(5)
+		o["excludeQuery"] = r.Chance(10)
 		ct := "application/json"
+		bodySpec := c13jm{"present": !r.Chance(5), "required": r.Chance(30), "schema": schema}
 		if r.Chance(3) {
 			ct = "text/plain"
+		} else if !c13HasComb(schema) && r.Chance(30) {
+			// other media types only with composition-free schemas (whether a default was set inside a discarded
+			// candidate copy is not modelled; only application/json tolerates an unnecessary re-encoding)
+			ct = hx.Pick(r, headers)
+			content := []any{c13jm{"key": hx.Pick(r, []string{"application/json", "application/*", "*/*", "application/problem+json", ct}), "schema": schema}}
+			if r.Bool() {
+				content = append(content, c13jm{"key": hx.Pick(r, []string{"application/hal+json", "application/*", "text/plain"}), "schema": hx.Pick(r, []any{sB, nil, schema})})
+			}
+			if k0, k1 := content[0].(c13jm)["key"], content[len(content)-1].(c13jm)["key"]; len(content) == 2 && k0 == k1 {
+				content = content[:1]
+			}
+			if content[0].(c13jm)["key"] == "" {
+				content[0].(c13jm)["key"] = "application/json"
+			}
+			bodySpec = c13jm{"present": true, "required": r.Chance(30), "content": content}
 		}
 		emit(hx.Case{"opts": o,
 			"sec":    c13jm{"hasFunc": !r.Chance(3), "declared": []any{"a", "b"}, "reqs": reqs, "auth": c13jm{"a": c13jm{"reads": vec&1 != 0, "ok": vec&2 != 0 || r.Chance(50)}, "b": c13jm{"reads": vec&4 != 0, "ok": vec&8 != 0 || r.Chance(50)}}},
 			"stream": c13jm{"getBody": hx.Pick(r, []string{"nil", "ok", "ok", "fails"}), "cl": hx.Pick(r, []string{"len", "len", "unknown"})},
 			"body":   body, "ctype": ct,
-			"bodySpec": c13jm{"present": !r.Chance(5), "required": r.Chance(30), "schema": schema},
-			"params":   params, "store": store, "reuseInput": r.Chance(12)})
+			"bodySpec": bodySpec, "pathParams": pathParams,
+			"params": params, "store": store, "reuseInput": r.Chance(12)})
 	}
 }
 
